@@ -877,8 +877,10 @@ class Filters:
             iterable_fmt = self._get_iterable_format()
             result = iterable_fmt.format(result)
 
-        if result.startswith('"'):
-            return f"ForwardRef({result})"
+        if '"' in result:
+            # One forward reference for the whole union: "a.B" | int is not valid code
+            result = result.replace('"', "")
+            return f'ForwardRef("{result}")'
 
         return f"Type[{result}]"
 
